@@ -24,7 +24,8 @@ PROP = "C20"
 THEOREMS = ["C20_safe_output", "C20_safe_input", "C20_reflexive", "C20_order",
             "C20_unfixed_output_rule_refuted", "C20_edit_reported_partial", "C20_edit_reported_full_refuted",
             "C20_reportable_exact", "C20_positions_sound", "C20_no_breaking_sound_partial",
-            "C20_no_spurious_change", "C20_no_breaking_sound_guarded"]
+            "C20_no_spurious_change", "C20_no_breaking_sound_guarded",
+            "C20_safe_retype_unreported", "C20_safe_retype_really_safe", "C20_same_response_shape_refuted"]
 AXIOMS_OK = []
 RUN_MODULE = "Run.C20run Schema.SchemaFull Schema.DifferModel Schema.SchemaValidateModel"
 AGREE = "agree_C20"
